@@ -1,10 +1,13 @@
 (* C19 semantic read-back: parameters and operations.  The object builders parse_param / parse_operation read the
    dictionaries of the semantic writer's blobs back as rparam_of / rop_of (goal_param, goal_op); reference paths are
-   read back as qualified names (nested_names, typed_path).  Generic tools for the sibling files: unq_q, foldM_app,
-   foldM_skip, noise_key_neq, noise_key_part, layout_body. *)
+   read back as qualified names (nested_names, typed_path).  Inert properties of a layout are invisible to the fixed-key
+   lookups (body_lookup: the key is in kind_keys K) and to the parameter loop (their keys hold no "child", their owned
+   elements are no parameters: op_loop).  Generic tools for the sibling files: unq_q, foldM_app, foldM_skip, noise_key_neq,
+   noise_key_part, layout_parts, layout_body, body_lookup, entries_in, children_of_slots, remove_char_nochar, txt_simple,
+   vtxt_simple, noise_val_simple, text_field_entries, qfield_entries, code_entries. *)
 From Coq Require Import String Ascii List Bool Arith Lia.
 From KV Require Import Lib.Str Lib.ODict Model.Vpp Model.VppWriter Model.Uml Model.UmlBlob Model.UmlWriter Model.UmlSem
-                       Proofs.UmlBlobDefs Proofs.UmlBlobStruct Proofs.UmlSemDefs Proofs.UmlSemDict Proofs.UmlSemGoals.
+                       Proofs.UmlBlobDefs Proofs.UmlBlobStruct Proofs.UmlSemDefs Proofs.UmlSemDict Proofs.UmlSemGoals Proofs.UmlSemDoc.
 Import ListNotations.
 Open Scope string_scope.
 
@@ -116,7 +119,7 @@ Qed.
 
 Lemma all_tags : forall t : tag,
   In t [TVis; TRet; TTypeMod; TAbstract; TQuery; TScope; TDoc; TChild; TType; TTypeString; TDir; TDefault; TMult; TInit; TSetter; TGetter;
-        TReadOnly; TStereo; TFrom; TTo].
+        TReadOnly; TStereo; TFrom; TTo; TAgg].
 Proof. destruct t; cbn [In]; repeat first [left; reflexivity | right]. Qed.
 
 Lemma layout_parts : forall f l, layout_ok f l = true ->
@@ -148,26 +151,48 @@ Proof.
     match goal with H : negb (String.eqb u "") = true |- _ => apply negb_true_iff in H; apply eqb_false_ne; exact H end.
 Qed.
 
-Lemma items_simple : forall ws f l,
-  (forall k v, In (SNoise k v) l -> noise_val v = true) ->
-  (forall t it, f t = Some it -> item_simple it = true) ->
-  forallb item_simple (items_of ws f l) = true.
+(* the reader's test "something but commas and blanks is left" on a comma-free stripped text is "non-empty" *)
+Lemma remove_char_nochar : forall c s, no_char c s = true -> remove_char c s = s.
 Proof.
-  intros ws f l. induction l as [|s r IH]; intros Hn Hf; [reflexivity|].
-  rewrite items_of_cons, forallb_app. rewrite IH; [|intros k v Hin; apply (Hn k v); right; exact Hin|exact Hf].
-  rewrite andb_true_r. destruct s as [k v|t].
-  - cbn [forallb item_simple]. rewrite andb_true_r. apply negb_true_iff.
-    destruct (String.eqb (unq v) "") eqn:E; [|reflexivity].
-    apply String.eqb_eq in E. exfalso. apply (noise_val_unq v); [|exact E]. apply (Hn k v). left. reflexivity.
-  - destruct (f t) as [it|] eqn:E; [|reflexivity]. cbn [forallb]. rewrite (Hf t it E). reflexivity.
+  intros c s. induction s as [|x r IH]; intro H; [reflexivity|].
+  cbn [no_char] in H. apply andb_true_iff in H. destruct H as [H1 H2]. apply negb_true_iff in H1.
+  cbn [remove_char]. rewrite H1, (IH H2). reflexivity.
 Qed.
 
-Lemma layout_body : forall ws f l, layout_ok f l = true -> (forall t it, f t = Some it -> item_simple it = true) ->
+Lemma txt_simple : forall s, txt s = true -> s <> "" -> negb (String.eqb (py_strip (remove_char "," s)) "") = true.
+Proof.
+  intros s H Hne. unfold txt in H. split_andb.
+  rewrite remove_char_nochar by assumption.
+  match goal with H : String.eqb (py_strip s) s = true |- _ => apply String.eqb_eq in H; rewrite H end.
+  apply negb_true_iff. destruct (String.eqb s "") eqn:E; [|reflexivity]. apply String.eqb_eq in E. contradiction.
+Qed.
+
+Lemma vtxt_simple : forall s, vtxt s = true -> s <> "" -> negb (String.eqb (py_strip (remove_char "," s)) "") = true.
+Proof.
+  intros s H Hne. unfold vtxt in H. split_andb.
+  match goal with H : (String.eqb s "" || _)%bool = true |- _ => apply orb_true_iff in H; destruct H as [Hx|Hx] end.
+  - apply String.eqb_eq in Hx. contradiction.
+  - assumption.
+Qed.
+
+Lemma noise_val_simple : forall v, noise_val v = true -> negb (String.eqb (py_strip (remove_char "," (unq v))) "") = true.
+Proof.
+  intros v H. unfold noise_val in H. apply orb_true_iff in H. destruct H as [H|H].
+  - split_andb.
+    match goal with H : negb (prefixb dq v) = true |- _ => apply negb_true_iff in H; rewrite (unq_plain v H) end.
+    apply txt_simple; [assumption|].
+    match goal with H : negb (String.eqb v "") = true |- _ => apply negb_true_iff in H; apply eqb_false_ne; exact H end.
+  - remember (substring 1 (String.length v - 2) v) as u eqn:Eu. clear Eu. split_andb.
+    match goal with H : String.eqb v (q u) = true |- _ => apply String.eqb_eq in H; subst v end.
+    rewrite unq_q. apply txt_simple; [assumption|].
+    match goal with H : negb (String.eqb u "") = true |- _ => apply negb_true_iff in H; apply eqb_false_ne; exact H end.
+Qed.
+
+Lemma layout_body : forall ws f l, layout_ok f l = true ->
   body_pv (items_of ws f l) = PDict (entries (items_of ws f l) ++ numbered (map node_pv (children_of (items_of ws f l))) 0)%list.
 Proof.
-  intros ws f l H Hs. destruct (layout_parts f l H) as [_ [Hd [Hp [Hn _]]]].
+  intros ws f l H. destruct (layout_parts f l H) as [_ [Hd [Hp _]]].
   apply body_explicit.
-  - apply items_simple; [|exact Hs]. intros k v Hin. exact (proj2 (Hn k v Hin)).
   - rewrite entry_keys_ws. exact Hd.
   - rewrite entry_keys_ws. exact Hp.
 Qed.
@@ -319,14 +344,11 @@ Proof.
   - exact (path_names D ids H).
 Qed.
 
-Lemma type_ok_clean : forall t, type_ok t = true -> clean_modifiers t = t.
-Proof. intros t H. unfold type_ok in H. split_andb. apply String.eqb_eq. assumption. Qed.
-
 Lemma typed_path : forall S g ids, g_names S g -> tpath_ok S ids = true -> ids <> [] ->
-  (n <- nested_type_names g (path_text ids) ;; Some (clean_modifiers n)) = Some (type_name S ids).
+  (n <- nested_type_names g (path_text ids) ;; Some (clean_modifiers n)) = Some (clean_modifiers (type_name S ids)).
 Proof.
   intros D g ids Hg H Hne. unfold tpath_ok in H. apply andb_true_iff in H. destruct H as [H1 H2].
-  rewrite (nested_names D g ids Hg H1 Hne). cbn [bind]. rewrite (type_ok_clean _ H2). reflexivity.
+  rewrite (nested_names D g ids Hg H1 Hne). reflexivity.
 Qed.
 
 Print Assumptions nested_names.
@@ -352,11 +374,12 @@ Lemma node_type_str : forall a b c x, sidx "type" (PDict [("id", a); ("name", b)
 Proof. reflexivity. Qed.
 
 (* a property key is looked up in the entries of the one tag that writes it *)
-Lemma body_lookup : forall ws f l vals k t0, layout_ok f l = true -> In k reserved_keys -> prefixb "child_" k = false ->
+Lemma body_lookup : forall ws f l vals k t0 K, layout_ok f l = true -> inerts_ok K l = true ->
+  In k reserved_keys -> In k (kind_keys K) -> prefixb "child_" k = false ->
   (forall t, t <> t0 -> lookup String.eqb k (tag_entries f t) = None) ->
   lookup String.eqb k (entries (items_of ws f l) ++ numbered vals 0)%list = lookup String.eqb k (tag_entries f t0).
 Proof.
-  intros ws f l vals k t0 H Hk Hp Ho. destruct (layout_parts f l H) as [_ [_ [_ [Hn Hh]]]].
+  intros ws f l vals k t0 K H Hi Hk Hkk Hp Ho. destruct (layout_parts f l H) as [_ [_ [_ [Hn Hh]]]].
   rewrite lookup_app, (lookup_numbered_none k vals 0 Hp).
   assert (E : lookup String.eqb k (entries (items_of ws f l)) = lookup String.eqb k (tag_entries f t0)).
   { rewrite lookup_drop_noise.
@@ -364,32 +387,44 @@ Proof.
       destruct (has_tag t0 l) eqn:Eh; [reflexivity|].
       unfold tag_entries. destruct (f t0) as [it|] eqn:Ef; [|reflexivity].
       rewrite (Hh t0 it Ef) in Eh. discriminate Eh.
-    - intros kn vn Hin. apply noise_key_neq; [exact (proj1 (Hn kn vn Hin))|exact Hk]. }
+    - intros s0 Hin. destruct s0 as [kn vn|t|it]; [|exact Logic.I|].
+      + apply noise_key_neq; [exact (proj1 (Hn kn vn Hin))|exact Hk].
+      + intro Hc. destruct (inert_key_free K l it k Hi Hin Hc) as [Hf _].
+        assert (Ht : existsb (String.eqb k) (kind_keys K) = true).
+        { apply existsb_exists. exists k. split; [exact Hkk|apply String.eqb_refl]. }
+        rewrite Ht in Hf. discriminate Hf. }
   rewrite E. destruct (lookup String.eqb k (tag_entries f t0)); reflexivity.
 Qed.
 
 Definition opt_entry (k v : string) : list (string * UmlBlob.pv) := if String.eqb v "" then [] else [(k, PStr v)].
 
-Lemma text_field_entries : forall ws k v,
+Lemma text_field_entries : forall ws k v, vtxt v = true ->
   match text_field ws k v with Some it => item_entries it | None => [] end = opt_entry k v.
 Proof.
-  intros ws k v. unfold text_field, opt_entry. destruct (String.eqb v ""); [reflexivity|].
-  cbn [item_entries]. rewrite unq_q. reflexivity.
+  intros ws k v Hv. unfold text_field, opt_entry. destruct (String.eqb v "") eqn:E; [reflexivity|].
+  cbn [item_entries]. rewrite unq_q.
+  assert (Hs := vtxt_simple v Hv (eqb_false_ne _ _ E)). apply negb_true_iff in Hs. rewrite Hs. reflexivity.
 Qed.
 
-Lemma text_field_simple : forall ws k v it, text_field ws k v = Some it -> item_simple it = true.
+(* a quoted non-empty text, a code *)
+Lemma qfield_entries : forall ws k s, txt s = true -> s <> "" -> item_entries (IField ws k (q s)) = [(k, PStr s)].
 Proof.
-  intros ws k v it H. unfold text_field in H. destruct (String.eqb v "") eqn:E; [discriminate H|].
-  injection H as H. subst it. cbn [item_simple]. rewrite unq_q, E. reflexivity.
+  intros ws k s0 H Hne. cbn [item_entries]. rewrite unq_q.
+  assert (Hs := txt_simple s0 H Hne). apply negb_true_iff in Hs. rewrite Hs. reflexivity.
 Qed.
 
-Lemma flag_field_simple : forall ws k b it, flag_field ws k b = Some it -> item_simple it = true.
-Proof. intros ws k b it H. destruct b; [|discriminate H]. injection H as H. subst it. reflexivity. Qed.
-
-Lemma ref_field_simple : forall ws k ids it, ref_field ws k ids = Some it -> item_simple it = true.
-Proof. intros ws k ids it H. destruct ids; [discriminate H|]. injection H as H. subst it. reflexivity. Qed.
+Lemma code_entries : forall ws k c, code_ok (Some c) = true -> item_entries (IField ws k c) = [(k, PStr c)].
+Proof.
+  intros ws k c H. cbn [code_ok] in H. split_andb. cbn [item_entries].
+  rewrite unq_plain by (apply negb_true_iff; assumption).
+  match goal with H : txt c = true |- _ => rename H into Ht end.
+  assert (Hs : negb (String.eqb (py_strip (remove_char "," c)) "") = true).
+  { apply txt_simple; [exact Ht|]. apply eqb_false_ne. apply negb_true_iff. assumption. }
+  apply negb_true_iff in Hs. rewrite Hs. reflexivity.
+Qed.
 
 Ltac in_reserved := unfold reserved_keys; cbn [In]; repeat first [left; reflexivity | right].
+Ltac in_kind := cbn [kind_keys In]; repeat first [left; reflexivity | right].
 
 Ltac other_tags lem :=
   let t := fresh "t" in
@@ -399,7 +434,7 @@ Ltac other_tags lem :=
 
 (* ---------------------------------------------------------------- parameters *)
 
-Lemma param_entries : forall p t,
+Lemma param_entries : forall D p, param_ok D p = true -> forall t,
   tag_entries (param_item p) t =
   match t with
   | TTypeString => match sp_basic p with Some s => [("type_string", PStr s)] | None => [] end
@@ -414,22 +449,13 @@ Lemma param_entries : forall p t,
   | _ => []
   end.
 Proof.
-  intros p t. unfold tag_entries, param_item. destruct t; try reflexivity; try apply text_field_entries.
+  intros D p H t. unfold param_ok in H. split_andb.
+  unfold tag_entries, param_item. destruct t; try reflexivity; try (apply text_field_entries; assumption).
   - destruct (sp_basic p); [reflexivity|]. destruct (sp_type p); reflexivity.
-  - destruct (sp_basic p); [|reflexivity]. cbn [item_entries]. rewrite unq_q. reflexivity.
+  - destruct (sp_basic p) as [s|]; [|reflexivity].
+    match goal with H : type_ok s = true |- _ => unfold type_ok in H; split_andb end.
+    apply qfield_entries; [assumption|]. apply eqb_false_ne. apply negb_true_iff. assumption.
   - destruct (sp_dir p) as [[|]|]; reflexivity.
-Qed.
-
-Lemma param_simple : forall D p, param_ok D p = true -> forall t it, param_item p t = Some it -> item_simple it = true.
-Proof.
-  intros D p H t it Hi. unfold param_ok in H. split_andb.
-  destruct t; cbn [param_item] in Hi; try discriminate Hi;
-    try (eapply text_field_simple; exact Hi).
-  - destruct (sp_basic p); [discriminate Hi|]. eapply ref_field_simple. exact Hi.
-  - destruct (sp_basic p) as [s|]; [|discriminate Hi]. injection Hi as Hi. subst it.
-    cbn [item_simple]. rewrite unq_q.
-    match goal with H : type_ok s = true |- _ => unfold type_ok in H; split_andb end. assumption.
-  - destruct (sp_dir p) as [[|]|]; [| |discriminate Hi]; injection Hi as Hi; subst it; reflexivity.
 Qed.
 
 Lemma build_param : goal_param.
@@ -437,37 +463,38 @@ Proof.
   intros D g p Hg Hok.
   assert (Hok' := Hok). unfold param_ok in Hok'. split_andb.
   match goal with H : layout_ok _ _ = true |- _ => rename H into Hl end.
+  match goal with H : inerts_ok _ _ = true |- _ => rename H into Hin end.
   unfold tree_of_param. rewrite node_explicit.
-  rewrite (layout_body (tabs 4) (param_item p) (sp_layout p) Hl (param_simple D p Hok)).
-  remember (map node_pv (children_of (items_of (tabs 4) (param_item p) (sp_layout p)))) as vals eqn:Ev. clear Ev.
-  assert (L1 : lookup String.eqb "type_string" (entries (items_of (tabs 4) (param_item p) (sp_layout p)) ++ numbered vals 0)%list
+  rewrite (layout_body (tabsn (sp_nl p) 5) (param_item p) (sp_layout p) Hl).
+  remember (map node_pv (children_of (items_of (tabsn (sp_nl p) 5) (param_item p) (sp_layout p)))) as vals eqn:Ev. clear Ev.
+  assert (L1 : lookup String.eqb "type_string" (entries (items_of (tabsn (sp_nl p) 5) (param_item p) (sp_layout p)) ++ numbered vals 0)%list
                = match sp_basic p with Some s => Some (PStr s) | None => None end).
-  { rewrite (body_lookup _ _ _ _ _ TTypeString Hl); [|in_reserved|reflexivity|other_tags param_entries].
-    rewrite param_entries. destruct (sp_basic p); reflexivity. }
-  assert (L2 : lookup String.eqb "type_0" (entries (items_of (tabs 4) (param_item p) (sp_layout p)) ++ numbered vals 0)%list
+  { rewrite (body_lookup _ _ _ _ _ TTypeString KParam Hl Hin); [|in_reserved|in_kind|reflexivity|other_tags (param_entries D p Hok)].
+    rewrite (param_entries D p Hok). destruct (sp_basic p); reflexivity. }
+  assert (L2 : lookup String.eqb "type_0" (entries (items_of (tabsn (sp_nl p) 5) (param_item p) (sp_layout p)) ++ numbered vals 0)%list
                = match sp_basic p with
                  | Some _ => None
                  | None => match sp_type p with [] => None | _ => Some (PStr (path_text (sp_type p))) end
                  end).
-  { rewrite (body_lookup _ _ _ _ _ TType Hl); [|in_reserved|reflexivity|other_tags param_entries].
-    rewrite param_entries. destruct (sp_basic p); [reflexivity|]. destruct (sp_type p); reflexivity. }
-  assert (L3 : lookup String.eqb "direction" (entries (items_of (tabs 4) (param_item p) (sp_layout p)) ++ numbered vals 0)%list
+  { rewrite (body_lookup _ _ _ _ _ TType KParam Hl Hin); [|in_reserved|in_kind|reflexivity|other_tags (param_entries D p Hok)].
+    rewrite (param_entries D p Hok). destruct (sp_basic p); [reflexivity|]. destruct (sp_type p); reflexivity. }
+  assert (L3 : lookup String.eqb "direction" (entries (items_of (tabsn (sp_nl p) 5) (param_item p) (sp_layout p)) ++ numbered vals 0)%list
                = match sp_dir p with Some true => Some (PStr "65") | Some false => Some (PStr "66") | None => None end).
-  { rewrite (body_lookup _ _ _ _ _ TDir Hl); [|in_reserved|reflexivity|other_tags param_entries].
-    rewrite param_entries. destruct (sp_dir p) as [[|]|]; reflexivity. }
-  assert (L4 : lookup String.eqb "typeModifier" (entries (items_of (tabs 4) (param_item p) (sp_layout p)) ++ numbered vals 0)%list
+  { rewrite (body_lookup _ _ _ _ _ TDir KParam Hl Hin); [|in_reserved|in_kind|reflexivity|other_tags (param_entries D p Hok)].
+    rewrite (param_entries D p Hok). destruct (sp_dir p) as [[|]|]; reflexivity. }
+  assert (L4 : lookup String.eqb "typeModifier" (entries (items_of (tabsn (sp_nl p) 5) (param_item p) (sp_layout p)) ++ numbered vals 0)%list
                = if String.eqb (sp_mod p) "" then None else Some (PStr (sp_mod p))).
-  { rewrite (body_lookup _ _ _ _ _ TTypeMod Hl); [|in_reserved|reflexivity|other_tags param_entries].
-    rewrite param_entries. unfold opt_entry. destruct (String.eqb (sp_mod p) ""); reflexivity. }
-  assert (L5 : lookup String.eqb "defaultValue_string" (entries (items_of (tabs 4) (param_item p) (sp_layout p)) ++ numbered vals 0)%list
+  { rewrite (body_lookup _ _ _ _ _ TTypeMod KParam Hl Hin); [|in_reserved|in_kind|reflexivity|other_tags (param_entries D p Hok)].
+    rewrite (param_entries D p Hok). unfold opt_entry. destruct (String.eqb (sp_mod p) ""); reflexivity. }
+  assert (L5 : lookup String.eqb "defaultValue_string" (entries (items_of (tabsn (sp_nl p) 5) (param_item p) (sp_layout p)) ++ numbered vals 0)%list
                = if String.eqb (sp_default p) "" then None else Some (PStr (sp_default p))).
-  { rewrite (body_lookup _ _ _ _ _ TDefault Hl); [|in_reserved|reflexivity|other_tags param_entries].
-    rewrite param_entries. unfold opt_entry. destruct (String.eqb (sp_default p) ""); reflexivity. }
-  assert (L6 : lookup String.eqb "multiplicity" (entries (items_of (tabs 4) (param_item p) (sp_layout p)) ++ numbered vals 0)%list
+  { rewrite (body_lookup _ _ _ _ _ TDefault KParam Hl Hin); [|in_reserved|in_kind|reflexivity|other_tags (param_entries D p Hok)].
+    rewrite (param_entries D p Hok). unfold opt_entry. destruct (String.eqb (sp_default p) ""); reflexivity. }
+  assert (L6 : lookup String.eqb "multiplicity" (entries (items_of (tabsn (sp_nl p) 5) (param_item p) (sp_layout p)) ++ numbered vals 0)%list
                = if String.eqb (sp_mult p) "" then None else Some (PStr (sp_mult p))).
-  { rewrite (body_lookup _ _ _ _ _ TMult Hl); [|in_reserved|reflexivity|other_tags param_entries].
-    rewrite param_entries. unfold opt_entry. destruct (String.eqb (sp_mult p) ""); reflexivity. }
-  remember (entries (items_of (tabs 4) (param_item p) (sp_layout p)) ++ numbered vals 0)%list as dict eqn:Ed. clear Ed.
+  { rewrite (body_lookup _ _ _ _ _ TMult KParam Hl Hin); [|in_reserved|in_kind|reflexivity|other_tags (param_entries D p Hok)].
+    rewrite (param_entries D p Hok). unfold opt_entry. destruct (String.eqb (sp_mult p) ""); reflexivity. }
+  remember (entries (items_of (tabsn (sp_nl p) 5) (param_item p) (sp_layout p)) ++ numbered vals 0)%list as dict eqn:Ed. clear Ed.
   unfold parse_param. rewrite node_child0. cbn [bind]. rewrite node_name_str.
   rewrite !has_dict, !idx_dict, !sidx_dict, !opt_field_dict.
   rewrite L1, L2, L3, L4, L5, L6.
@@ -478,12 +505,12 @@ Proof.
                                  | Some _ => None
                                  | None => match sp_type p with [] => None | _ => Some (PStr (path_text (sp_type p))) end
                                  end ;; as_str x) ;; n <- nested_type_names g t ;; Some (clean_modifiers n))
-                = Some match sp_basic p with Some s => s | None => type_name D (sp_type p) end).
+                = Some (clean_modifiers match sp_basic p with Some s => s | None => type_name D (sp_type p) end)).
   { destruct (sp_basic p) as [s|].
-    - cbn [bind as_str]. rewrite type_ok_clean by assumption. reflexivity.
+    - reflexivity.
     - split_andb. destruct (sp_type p) as [|i r] eqn:Et; [discriminate|].
       cbn [bind as_str]. rewrite <- Et. apply typed_path; [exact Hg|rewrite Et; assumption|rewrite Et; discriminate]. }
-  match goal with |- bind ?e _ = _ => replace e with (Some match sp_basic p with Some s => s | None => type_name D (sp_type p) end)
+  match goal with |- bind ?e _ = _ => replace e with (Some (clean_modifiers match sp_basic p with Some s => s | None => type_name D (sp_type p) end))
                                         by (symmetry; exact Hty) end.
   cbn [bind].
   destruct (sp_dir p) as [[|]|]; destruct (String.eqb (sp_mod p) "") eqn:E1; destruct (String.eqb (sp_default p) "") eqn:E2;
@@ -505,22 +532,26 @@ Ltac destr_inner :=
 Definition tag_kids (f : tag -> option witem) (t : tag) : list wnode :=
   match f t with Some (IChildren _ _ _ _ _ ns) => ns | _ => [] end.
 
-Lemma children_of_app : forall a b, children_of (a ++ b)%list = (children_of a ++ children_of b)%list.
-Proof. intros a b. unfold children_of. apply flat_map_app. Qed.
+(* the owned elements a slot of a layout contributes: those of its tag's item, those of an inert item *)
+Definition slot_kids (f : tag -> option witem) (s : slot) : list wnode :=
+  match s with
+  | SNoise _ _ => []
+  | STag t => tag_kids f t
+  | SInert it => UmlBlobText.kids_of it
+  end.
 
-Lemma children_items_tags : forall ws f l, children_of (items_of ws f l) = flat_map (tag_kids f) (tags_of l).
+Lemma children_of_app : forall a b, children_of (a ++ b)%list = (children_of a ++ children_of b)%list.
+Proof. exact UmlSemDict.children_of_app. Qed.
+
+Lemma children_of_slots : forall ws f l, children_of (items_of ws f l) = flat_map (slot_kids f) l.
 Proof.
-  intros ws f l. induction l as [|s r IH]; [reflexivity|].
-  rewrite items_of_cons, children_of_app, IH. destruct s as [k v|t].
-  - reflexivity.
-  - change (tags_of (STag t :: r)) with (t :: tags_of r). cbn [flat_map]. f_equal.
-    unfold tag_kids. destruct (f t) as [[| | | |]|]; cbn [children_of flat_map app]; rewrite ?app_nil_r; reflexivity.
+  intros ws f l. rewrite children_of_layout. apply flat_map_ext. intro s0. destruct s0 as [k v|t|it]; reflexivity.
 Qed.
 
 Lemma nodup_tags_seen : forall l seen t, nodup_tags l seen = true -> In t seen -> has_tag t l = false.
 Proof.
   induction l as [|s r IH]; intros seen t H Hin; [reflexivity|].
-  destruct s as [k v|x].
+  destruct s as [k v|x|it].
   - cbn [nodup_tags] in H. unfold has_tag. cbn [existsb orb]. exact (IH seen t H Hin).
   - cbn [nodup_tags] in H. apply andb_true_iff in H. destruct H as [H1 H2]. apply negb_true_iff in H1.
     unfold has_tag. cbn [existsb]. fold (has_tag t r). rewrite (IH (x :: seen) t H2 (or_intror Hin)), orb_false_r.
@@ -529,102 +560,85 @@ Proof.
     assert (Ht : existsb (tag_eqb t) seen = true).
     { apply existsb_exists. exists t. split; [exact Hin|]. apply tag_eqb_eq. reflexivity. }
     rewrite Ht in H1. discriminate H1.
+  - cbn [nodup_tags] in H. unfold has_tag. cbn [existsb orb]. exact (IH seen t H Hin).
 Qed.
 
-Lemma kids_single : forall f t0, (forall t, t <> t0 -> tag_kids f t = []) ->
-  forall l seen, nodup_tags l seen = true ->
-  flat_map (tag_kids f) (tags_of l) = if has_tag t0 l then tag_kids f t0 else [].
-Proof.
-  intros f t0 Ho. induction l as [|s r IH]; intros seen H; [reflexivity|].
-  destruct s as [k v|x].
-  - cbn [nodup_tags] in H. change (tags_of (SNoise k v :: r)) with (tags_of r).
-    unfold has_tag. cbn [existsb orb]. fold (has_tag t0 r). exact (IH seen H).
-  - cbn [nodup_tags] in H. apply andb_true_iff in H. destruct H as [H1 H2].
-    change (tags_of (STag x :: r)) with (x :: tags_of r). cbn [flat_map].
-    unfold has_tag. cbn [existsb]. fold (has_tag t0 r). rewrite (IH (x :: seen) H2).
-    destruct (tag_eqb x t0) eqn:E.
-    + apply tag_eqb_eq in E. subst x. rewrite (nodup_tags_seen r (t0 :: seen) t0 H2 (or_introl eq_refl)).
-      cbn [orb]. apply app_nil_r.
-    + cbn [orb]. rewrite Ho; [reflexivity|]. intro Ex. subst x.
-      assert (Et : tag_eqb t0 t0 = true) by (apply tag_eqb_eq; reflexivity). rewrite Et in E. discriminate E.
-Qed.
-
-(* the entries of a layout come from its noise slots and from its tags *)
+(* the entries of a layout come from its noise slots, from its tags and from its inert items *)
 Lemma entries_in : forall ws f l kv, In kv (entries (items_of ws f l)) ->
-  (exists k v, In (SNoise k v) l /\ fst kv = k) \/ (exists t, In kv (tag_entries f t)).
+  (exists k v, In (SNoise k v) l /\ fst kv = k) \/ (exists t, In kv (tag_entries f t))
+  \/ (exists it, In (SInert it) l /\ In kv (item_entries it)).
 Proof.
   intros ws f l kv. induction l as [|s r IH]; intro H; [destruct H|].
   rewrite items_of_cons, entries_app in H. apply in_app_or in H. destruct H as [H|H].
-  - destruct s as [k v|t].
+  - destruct s as [k v|t|it].
     + left. exists k, v. split; [left; reflexivity|].
-      change (entries [IField ws k v]) with [(k, PStr (unq v))] in H. destruct H as [H|[]]. subst kv. reflexivity.
-    + right. exists t. rewrite tag_item_entries in H. exact H.
-  - destruct (IH H) as [[k [v [Hin E]]]|Ht].
+      rewrite entries_cons in H. cbn [entries flat_map item_entries] in H. rewrite app_nil_r in H.
+      destruct (String.eqb (py_strip (remove_char "," (unq v))) ""); [destruct H|].
+      destruct H as [H|[]]. subst kv. reflexivity.
+    + right. left. exists t. rewrite tag_item_entries in H. exact H.
+    + right. right. exists it. split; [left; reflexivity|].
+      rewrite entries_cons in H. cbn [entries flat_map] in H. rewrite app_nil_r in H. exact H.
+  - destruct (IH H) as [[k [v [Hin E]]]|[Ht|[it [Hin Hk]]]].
     + left. exists k, v. split; [right; exact Hin|exact E].
-    + right. exact Ht.
+    + right. left. exact Ht.
+    + right. right. exists it. split; [right; exact Hin|exact Hk].
 Qed.
 
 (* ---------------------------------------------------------------- operations *)
 
-Lemma op_entries : forall o t,
+Lemma op_entries : forall D o, op_ok D o = true -> forall t,
   tag_entries (op_item o) t =
   match t with
-  | TVis => match so_vis o with Some c => [("visibility", PStr (unq c))] | None => [] end
+  | TVis => match so_vis o with Some c => [("visibility", PStr c)] | None => [] end
   | TRet => match so_ret o with [] => [] | _ => [("returnType_0", PStr (path_text (so_ret o)))] end
   | TTypeMod => opt_entry "typeModifier" (so_retmod o)
   | TAbstract => if so_abstract o then [("abstract", PStr "T")] else []
   | TQuery => if so_query o then [("query", PStr "T")] else []
   | TScope => if so_static o then [("scope", PStr "65")] else []
-  | TDoc => opt_entry "documentation_plain" (so_doc o)
+  | TDoc => match doc_field (tabsn (so_nl o) 3) (so_doc o) with
+            | Some _ => [("documentation_plain", PStr (doc_value (so_doc o)))]
+            | None => []
+            end
   | _ => []
   end.
 Proof.
-  intros o t. unfold tag_entries, op_item. destruct t; try reflexivity; try apply text_field_entries.
-  - destruct (so_vis o); reflexivity.
+  intros D o H t. unfold op_ok in H. split_andb.
+  unfold tag_entries, op_item. destruct t; try reflexivity; try (apply text_field_entries; assumption).
+  - destruct (so_vis o) as [c|]; [|reflexivity]. apply code_entries. assumption.
   - destruct (so_ret o); reflexivity.
   - destruct (so_abstract o); reflexivity.
   - destruct (so_query o); reflexivity.
   - destruct (so_static o); reflexivity.
+  - destruct (doc_field (tabsn (so_nl o) 3) (so_doc o)) as [it|] eqn:E; [|reflexivity].
+    match goal with Hn : nl_ok _ = true, Hd : doc_ok _ _ = true |- _ => exact (proj1 (doc_entries _ _ _ _ Hn Hd E)) end.
   - destruct (so_params o); reflexivity.
 Qed.
 
-Lemma op_simple : forall D o, op_ok D o = true -> forall t it, op_item o t = Some it -> item_simple it = true.
+Lemma op_tag_kids : forall o t, tag_kids (op_item o) t = match t with TChild => map tree_of_param (so_params o) | _ => [] end.
 Proof.
-  intros D o H t it Hi. unfold op_ok in H. split_andb.
-  destruct t; cbn [op_item] in Hi; try discriminate Hi;
-    try (eapply text_field_simple; exact Hi); try (eapply flag_field_simple; exact Hi); try (eapply ref_field_simple; exact Hi).
-  - destruct (so_vis o) as [c|]; [|discriminate Hi]. injection Hi as Hi. subst it.
-    match goal with H : code_ok (Some c) = true |- _ => cbn [code_ok] in H; split_andb end.
-    cbn [item_simple]. rewrite unq_plain by (apply negb_true_iff; assumption). assumption.
-  - destruct (so_static o); [|discriminate Hi]. injection Hi as Hi. subst it. reflexivity.
-  - destruct (so_params o); [discriminate Hi|]. injection Hi as Hi. subst it. reflexivity.
+  intros o t. unfold tag_kids, op_item, doc_field, text_field, flag_field, ref_field.
+  destruct t; try reflexivity; repeat destr_inner; reflexivity.
 Qed.
 
-Lemma children_of_items : forall ws o, layout_ok (op_item o) (so_layout o) = true ->
-  children_of (items_of ws (op_item o) (so_layout o)) = map tree_of_param (so_params o).
-Proof.
-  intros ws o H. destruct (layout_parts _ _ H) as [Hd [_ [_ [_ Hh]]]].
-  rewrite children_items_tags, (kids_single (op_item o) TChild) with (seen := []); [|clear|exact Hd].
-  - destruct (has_tag TChild (so_layout o)) eqn:E.
-    + unfold tag_kids, op_item. destruct (so_params o); reflexivity.
-    + destruct (so_params o) as [|p r] eqn:Ep; [reflexivity|].
-      assert (Hc : op_item o TChild = Some (IChildren (tabs 3) "Child" (list_open 4) (list_sep 4) (list_close 3) (map tree_of_param (p :: r)))).
-      { cbn [op_item]. rewrite Ep. reflexivity. }
-      rewrite (Hh _ _ Hc) in E. discriminate E.
-  - intros t Ht. unfold tag_kids, op_item, text_field, flag_field, ref_field.
-    destruct t; try (exfalso; apply Ht; reflexivity); try reflexivity; repeat destr_inner; reflexivity.
-Qed.
-
-Lemma op_entries_nochild : forall ws o kv, layout_ok (op_item o) (so_layout o) = true ->
+Lemma op_entries_nochild : forall D ws o kv, op_ok D o = true ->
   In kv (entries (items_of ws (op_item o) (so_layout o))) -> contains "child" (fst kv) = false.
 Proof.
-  intros ws o kv H Hin. destruct (layout_parts _ _ H) as [_ [_ [_ [Hn _]]]].
-  apply entries_in in Hin. destruct Hin as [[k [v [Hs E]]]|[t Ht]].
+  intros D ws o kv Hok Hin.
+  assert (Hok' := Hok). unfold op_ok in Hok'. split_andb.
+  match goal with H : layout_ok _ _ = true |- _ => rename H into Hl end.
+  match goal with H : inerts_ok _ _ = true |- _ => rename H into Hi end.
+  destruct (layout_parts _ _ Hl) as [_ [_ [_ [Hn _]]]].
+  apply entries_in in Hin. destruct Hin as [[k [v [Hs E]]]|[[t Ht]|[it [Hs Hk]]]].
   - rewrite E. apply noise_key_nochild. exact (proj1 (Hn k v Hs)).
-  - rewrite op_entries in Ht. unfold opt_entry in Ht.
+  - rewrite (op_entries D o Hok) in Ht. unfold opt_entry in Ht.
     destruct t; try (destruct Ht; fail);
       repeat match type of Ht with context [match ?x with _ => _ end] => destruct x end;
       try (destruct Ht; fail); destruct Ht as [Ht|[]]; subst kv; reflexivity.
+  - assert (Hk' : In (fst kv) (item_keys it)).
+    { rewrite <- item_entries_keys. apply in_map. exact Hk. }
+    destruct (inert_key_free KOp _ it (fst kv) Hi Hs Hk') as [_ Hp].
+    cbn [kind_parts forallb] in Hp. rewrite andb_true_r in Hp. apply negb_true_iff in Hp.
+    apply contains_lower_false; [reflexivity|exact Hp].
 Qed.
 
 (* the body of the parameter loop of ClassOperation *)
@@ -647,6 +661,16 @@ Proof.
   unfold tree_of_param. rewrite node_explicit, node_type_str. reflexivity.
 Qed.
 
+(* an owned element of another type is passed over *)
+Lemma param_step_other : forall g n x acc, kind_child_ok KOp (node_type n) = true ->
+  param_step g acc ("child_" ++ x, node_pv n) = Some acc.
+Proof.
+  intros g n x acc H. destruct n as [id nm ty its tl]. cbn [kind_child_ok node_type] in H.
+  apply negb_true_iff in H. rewrite String.eqb_sym in H.
+  unfold param_step. cbn [fst snd]. rewrite child_key_contains, node_explicit. cbn [truthy].
+  rewrite node_type_str. cbn [bind]. rewrite H. reflexivity.
+Qed.
+
 Lemma params_numbered : forall D g ps n acc, g_names D g -> forallb (param_ok D) ps = true ->
   foldM (param_step g) (numbered (map node_pv (map tree_of_param ps)) n) acc = Some (acc ++ map (rparam_of D) ps)%list.
 Proof.
@@ -656,6 +680,46 @@ Proof.
     cbn [map numbered foldM]. rewrite (param_step_child D g p n acc Hg H1). cbn [bind].
     rewrite (IH _ _ Hg H2), <- app_assoc. reflexivity.
 Qed.
+
+Lemma others_numbered : forall g ns n acc, (forall x, In x ns -> kind_child_ok KOp (node_type x) = true) ->
+  foldM (param_step g) (numbered (map node_pv ns) n) acc = Some acc.
+Proof.
+  intros g ns. induction ns as [|x r IH]; intros n acc H; [reflexivity|].
+  cbn [map numbered foldM]. rewrite (param_step_other g x (dec n) acc (H x (or_introl eq_refl))). cbn [bind].
+  apply IH. intros y Hy. apply H. right. exact Hy.
+Qed.
+
+(* the loop over the owned elements of an operation, in layout order: the parameters, the inert ones skipped *)
+Lemma op_loop : forall D g o, g_names D g -> forallb (param_ok D) (so_params o) = true ->
+  forall l seen n acc, nodup_tags l seen = true -> inerts_ok KOp l = true ->
+  foldM (param_step g) (numbered (map node_pv (flat_map (slot_kids (op_item o)) l)) n) acc
+  = Some (acc ++ if has_tag TChild l then map (rparam_of D) (so_params o) else [])%list.
+Proof.
+  intros D g o Hg Hps. induction l as [|s r IH]; intros seen n acc Hd Hi.
+  - cbn [flat_map map numbered foldM has_tag existsb]. rewrite app_nil_r. reflexivity.
+  - cbn [flat_map]. rewrite map_app, numbered_app, foldM_app.
+    cbn [inerts_ok forallb] in Hi. apply andb_true_iff in Hi. destruct Hi as [Hi1 Hi2]. fold (inerts_ok KOp r) in Hi2.
+    destruct s as [k v|t|it].
+    + cbn [nodup_tags] in Hd. cbn [slot_kids map numbered foldM bind].
+      unfold has_tag. cbn [existsb orb]. fold (has_tag TChild r). exact (IH seen _ acc Hd Hi2).
+    + cbn [nodup_tags] in Hd. apply andb_true_iff in Hd. destruct Hd as [Hd1 Hd2].
+      cbn [slot_kids]. rewrite op_tag_kids.
+      unfold has_tag. cbn [existsb]. fold (has_tag TChild r).
+      destruct t; cbn [map numbered foldM bind tag_eqb orb]; try exact (IH _ _ acc Hd2 Hi2).
+      rewrite (params_numbered D g (so_params o) n acc Hg Hps). cbn [bind].
+      rewrite (IH _ _ _ Hd2 Hi2), (nodup_tags_seen r (TChild :: seen) TChild Hd2 (or_introl eq_refl)), app_nil_r. reflexivity.
+    + cbn [nodup_tags] in Hd. cbn [slot_kids].
+      rewrite others_numbered.
+      * cbn [bind]. unfold has_tag. cbn [existsb orb]. fold (has_tag TChild r). exact (IH seen _ acc Hd Hi2).
+      * intros x Hx. unfold inert_ok in Hi1. split_andb. destruct it; try (destruct Hx; fail).
+        cbn [UmlBlobText.kids_of] in Hx.
+        match goal with H : forallb _ _ = true |- _ => rewrite forallb_forall in H; exact (H x Hx) end.
+Qed.
+
+(* the owned elements of an operation body *)
+Lemma children_of_items : forall ws o,
+  children_of (items_of ws (op_item o) (so_layout o)) = flat_map (slot_kids (op_item o)) (so_layout o).
+Proof. intros ws o. apply children_of_slots. Qed.
 
 Lemma vis_pkg : forall c, String.eqb (py_strip (lower (vis_of_code c))) "package" = String.eqb (vis_of_code c) "package".
 Proof.
@@ -672,48 +736,55 @@ Proof.
   intros D g o Hg Hok.
   assert (Hok' := Hok). unfold op_ok in Hok'. split_andb.
   match goal with H : layout_ok _ _ = true |- _ => rename H into Hl end.
+  match goal with H : inerts_ok _ _ = true |- _ => rename H into Hin end.
   match goal with H : forallb (param_ok D) _ = true |- _ => rename H into Hps end.
   unfold tree_of_op. rewrite node_explicit.
-  rewrite (layout_body (tabs 3) (op_item o) (so_layout o) Hl (op_simple D o Hok)).
-  rewrite (children_of_items (tabs 3) o Hl).
+  rewrite (layout_body (tabsn (so_nl o) 3) (op_item o) (so_layout o) Hl).
+  rewrite (children_of_items (tabsn (so_nl o) 3) o).
   assert (Hloop : foldM (param_step g)
-                    (entries (items_of (tabs 3) (op_item o) (so_layout o)) ++ numbered (map node_pv (map tree_of_param (so_params o))) 0)%list []
+                    (entries (items_of (tabsn (so_nl o) 3) (op_item o) (so_layout o))
+                     ++ numbered (map node_pv (flat_map (slot_kids (op_item o)) (so_layout o))) 0)%list []
                   = Some (map (rparam_of D) (so_params o))).
   { rewrite foldM_app, foldM_skip.
-    - cbn [bind]. rewrite (params_numbered D g (so_params o) 0 [] Hg Hps). reflexivity.
-    - intros kv acc Hin. unfold param_step. rewrite (op_entries_nochild _ _ _ Hl Hin). reflexivity. }
-  remember (map node_pv (map tree_of_param (so_params o))) as vals eqn:Ev. clear Ev.
-  assert (L1 : lookup String.eqb "visibility" (entries (items_of (tabs 3) (op_item o) (so_layout o)) ++ numbered vals 0)%list
+    - cbn [bind]. destruct (layout_parts _ _ Hl) as [Hd [_ [_ [_ Hh]]]].
+      rewrite (op_loop D g o Hg Hps (so_layout o) [] 0 [] Hd Hin). cbn [app].
+      destruct (has_tag TChild (so_layout o)) eqn:E; [reflexivity|].
+      destruct (so_params o) as [|p r] eqn:Ep; [reflexivity|].
+      assert (Hc : op_item o TChild = Some (IChildren (tabsn (so_nl o) 3) "Child" (list_open (so_nl o) 4) (list_sep (so_nl o) 4)
+                                              (list_close (so_nl o) 3) (map tree_of_param (p :: r)))).
+      { cbn [op_item]. rewrite Ep. reflexivity. }
+      rewrite (Hh _ _ Hc) in E. discriminate E.
+    - intros kv acc Hi. unfold param_step. rewrite (op_entries_nochild D _ _ _ Hok Hi). reflexivity. }
+  remember (map node_pv (flat_map (slot_kids (op_item o)) (so_layout o))) as vals eqn:Ev. clear Ev.
+  assert (L1 : lookup String.eqb "visibility" (entries (items_of (tabsn (so_nl o) 3) (op_item o) (so_layout o)) ++ numbered vals 0)%list
                = match so_vis o with Some c => Some (PStr c) | None => None end).
-  { rewrite (body_lookup _ _ _ _ _ TVis Hl); [|in_reserved|reflexivity|other_tags op_entries].
-    rewrite op_entries. destruct (so_vis o) as [c|]; [|reflexivity].
-    match goal with H : code_ok (Some c) = true |- _ => cbn [code_ok] in H; split_andb end.
-    rewrite unq_plain by (apply negb_true_iff; assumption). reflexivity. }
-  assert (L2 : lookup String.eqb "returnType_0" (entries (items_of (tabs 3) (op_item o) (so_layout o)) ++ numbered vals 0)%list
+  { rewrite (body_lookup _ _ _ _ _ TVis KOp Hl Hin); [|in_reserved|in_kind|reflexivity|other_tags (op_entries D o Hok)].
+    rewrite (op_entries D o Hok). destruct (so_vis o) as [c|]; reflexivity. }
+  assert (L2 : lookup String.eqb "returnType_0" (entries (items_of (tabsn (so_nl o) 3) (op_item o) (so_layout o)) ++ numbered vals 0)%list
                = match so_ret o with [] => None | _ => Some (PStr (path_text (so_ret o))) end).
-  { rewrite (body_lookup _ _ _ _ _ TRet Hl); [|in_reserved|reflexivity|other_tags op_entries].
-    rewrite op_entries. destruct (so_ret o); reflexivity. }
-  assert (L3 : lookup String.eqb "typeModifier" (entries (items_of (tabs 3) (op_item o) (so_layout o)) ++ numbered vals 0)%list
+  { rewrite (body_lookup _ _ _ _ _ TRet KOp Hl Hin); [|in_reserved|in_kind|reflexivity|other_tags (op_entries D o Hok)].
+    rewrite (op_entries D o Hok). destruct (so_ret o); reflexivity. }
+  assert (L3 : lookup String.eqb "typeModifier" (entries (items_of (tabsn (so_nl o) 3) (op_item o) (so_layout o)) ++ numbered vals 0)%list
                = if String.eqb (so_retmod o) "" then None else Some (PStr (so_retmod o))).
-  { rewrite (body_lookup _ _ _ _ _ TTypeMod Hl); [|in_reserved|reflexivity|other_tags op_entries].
-    rewrite op_entries. unfold opt_entry. destruct (String.eqb (so_retmod o) ""); reflexivity. }
-  assert (L4 : lookup String.eqb "documentation_plain" (entries (items_of (tabs 3) (op_item o) (so_layout o)) ++ numbered vals 0)%list
-               = if String.eqb (so_doc o) "" then None else Some (PStr (so_doc o))).
-  { rewrite (body_lookup _ _ _ _ _ TDoc Hl); [|in_reserved|reflexivity|other_tags op_entries].
-    rewrite op_entries. unfold opt_entry. destruct (String.eqb (so_doc o) ""); reflexivity. }
-  assert (L5 : lookup String.eqb "scope" (entries (items_of (tabs 3) (op_item o) (so_layout o)) ++ numbered vals 0)%list
+  { rewrite (body_lookup _ _ _ _ _ TTypeMod KOp Hl Hin); [|in_reserved|in_kind|reflexivity|other_tags (op_entries D o Hok)].
+    rewrite (op_entries D o Hok). unfold opt_entry. destruct (String.eqb (so_retmod o) ""); reflexivity. }
+  assert (L4 : lookup String.eqb "documentation_plain" (entries (items_of (tabsn (so_nl o) 3) (op_item o) (so_layout o)) ++ numbered vals 0)%list
+               = match doc_field (tabsn (so_nl o) 3) (so_doc o) with Some _ => Some (PStr (doc_value (so_doc o))) | None => None end).
+  { rewrite (body_lookup _ _ _ _ _ TDoc KOp Hl Hin); [|in_reserved|in_kind|reflexivity|other_tags (op_entries D o Hok)].
+    rewrite (op_entries D o Hok). destruct (doc_field (tabsn (so_nl o) 3) (so_doc o)); reflexivity. }
+  assert (L5 : lookup String.eqb "scope" (entries (items_of (tabsn (so_nl o) 3) (op_item o) (so_layout o)) ++ numbered vals 0)%list
                = if so_static o then Some (PStr "65") else None).
-  { rewrite (body_lookup _ _ _ _ _ TScope Hl); [|in_reserved|reflexivity|other_tags op_entries].
-    rewrite op_entries. destruct (so_static o); reflexivity. }
-  assert (L6 : lookup String.eqb "abstract" (entries (items_of (tabs 3) (op_item o) (so_layout o)) ++ numbered vals 0)%list
+  { rewrite (body_lookup _ _ _ _ _ TScope KOp Hl Hin); [|in_reserved|in_kind|reflexivity|other_tags (op_entries D o Hok)].
+    rewrite (op_entries D o Hok). destruct (so_static o); reflexivity. }
+  assert (L6 : lookup String.eqb "abstract" (entries (items_of (tabsn (so_nl o) 3) (op_item o) (so_layout o)) ++ numbered vals 0)%list
                = if so_abstract o then Some (PStr "T") else None).
-  { rewrite (body_lookup _ _ _ _ _ TAbstract Hl); [|in_reserved|reflexivity|other_tags op_entries].
-    rewrite op_entries. destruct (so_abstract o); reflexivity. }
-  assert (L7 : lookup String.eqb "query" (entries (items_of (tabs 3) (op_item o) (so_layout o)) ++ numbered vals 0)%list
+  { rewrite (body_lookup _ _ _ _ _ TAbstract KOp Hl Hin); [|in_reserved|in_kind|reflexivity|other_tags (op_entries D o Hok)].
+    rewrite (op_entries D o Hok). destruct (so_abstract o); reflexivity. }
+  assert (L7 : lookup String.eqb "query" (entries (items_of (tabsn (so_nl o) 3) (op_item o) (so_layout o)) ++ numbered vals 0)%list
                = if so_query o then Some (PStr "T") else None).
-  { rewrite (body_lookup _ _ _ _ _ TQuery Hl); [|in_reserved|reflexivity|other_tags op_entries].
-    rewrite op_entries. destruct (so_query o); reflexivity. }
-  remember (entries (items_of (tabs 3) (op_item o) (so_layout o)) ++ numbered vals 0)%list as dict eqn:Ed. clear Ed.
+  { rewrite (body_lookup _ _ _ _ _ TQuery KOp Hl Hin); [|in_reserved|in_kind|reflexivity|other_tags (op_entries D o Hok)].
+    rewrite (op_entries D o Hok). destruct (so_query o); reflexivity. }
+  remember (entries (items_of (tabsn (so_nl o) 3) (op_item o) (so_layout o)) ++ numbered vals 0)%list as dict eqn:Ed. clear Ed.
   unfold param_step in Hloop.
   unfold parse_operation. rewrite node_name_str. cbn [bind]. rewrite node_child0. cbn [bind].
   rewrite !has_dict, !idx_dict, !sidx_dict, !opt_field_dict.
@@ -729,7 +800,7 @@ Proof.
                   then t <- (x <- match so_ret o with [] => None | _ => Some (PStr (path_text (so_ret o))) end ;; as_str x) ;;
                        n <- nested_type_names g t ;; Some (clean_modifiers n)
                   else Some "void")
-                 = Some match so_ret o with [] => "void" | _ => type_name D (so_ret o) end).
+                 = Some match so_ret o with [] => "void" | _ => clean_modifiers (type_name D (so_ret o)) end).
   { destruct (so_ret o) as [|i r] eqn:Er; [reflexivity|].
     cbn [bind as_str]. apply typed_path; [exact Hg|assumption|discriminate]. }
   rewrite Hret. cbn [bind]. rewrite Hloop. cbn [bind].
@@ -738,8 +809,9 @@ Proof.
                  = String.eqb match so_vis o with Some c => vis_of_code c | None => "public" end "package").
   { destruct (so_vis o); [apply vis_pkg|reflexivity]. }
   rewrite Hpkg. cbn zeta.
-  destruct (so_ret o); destruct (String.eqb (so_retmod o) "") eqn:E1; destruct (String.eqb (so_doc o) "") eqn:E2;
-    try (apply String.eqb_eq in E1; rewrite E1); try (apply String.eqb_eq in E2; rewrite E2);
+  destruct (doc_field (tabsn (so_nl o) 3) (so_doc o)) eqn:E2; [|rewrite (doc_absent _ _ E2)];
+    destruct (so_ret o); destruct (String.eqb (so_retmod o) "") eqn:E1;
+    try (apply String.eqb_eq in E1; rewrite E1);
     destruct (so_static o); destruct (so_abstract o); destruct (so_query o); reflexivity.
 Qed.
 
@@ -750,7 +822,7 @@ Goal True.
   pose proof (nested_names : forall S g ids, g_names S g -> path_ok S ids = true -> ids <> [] ->
     nested_type_names g (path_text ids) = Some (type_name S ids)).
   pose proof (typed_path : forall S g ids, g_names S g -> tpath_ok S ids = true -> ids <> [] ->
-    (n <- nested_type_names g (path_text ids) ;; Some (clean_modifiers n)) = Some (type_name S ids)).
+    (n <- nested_type_names g (path_text ids) ;; Some (clean_modifiers n)) = Some (clean_modifiers (type_name S ids))).
   pose proof (build_param : goal_param).
   pose proof (build_op : goal_op).
   pose proof (unq_q : forall v, unq (q v) = v).
@@ -760,9 +832,11 @@ Goal True.
     (forall x s', In x l -> f s' x = Some s') -> foldM f l s = Some s).
   pose proof (noise_key_neq : forall k r, noise_key k = true -> In r reserved_keys -> k <> r).
   pose proof (noise_key_part : forall k p, noise_key k = true -> In p reserved_parts -> contains p (lower k) = false).
-  pose proof (layout_body : forall ws f l, layout_ok f l = true -> (forall t it, f t = Some it -> item_simple it = true) ->
+  pose proof (layout_body : forall ws f l, layout_ok f l = true ->
     body_pv (items_of ws f l) = PDict (entries (items_of ws f l) ++ numbered (map node_pv (children_of (items_of ws f l))) 0)%list).
-  pose proof (children_of_items : forall ws o, layout_ok (op_item o) (so_layout o) = true ->
-    children_of (items_of ws (op_item o) (so_layout o)) = map tree_of_param (so_params o)).
-  exact I.
+  pose proof (children_of_items : forall ws o,
+    children_of (items_of ws (op_item o) (so_layout o)) = flat_map (slot_kids (op_item o)) (so_layout o)).
+  pose proof (text_field_entries : forall ws k v, vtxt v = true ->
+    match text_field ws k v with Some it => item_entries it | None => [] end = opt_entry k v).
+  exact Logic.I.
 Qed.
